@@ -716,6 +716,7 @@ type vpRun struct {
 	cur           []string
 	stats         map[string]int
 	w             *vpWorld
+	flushEach     bool // single-scenario re-run: ops.txt is complete up to the operation that kills the process
 }
 
 func (r *vpRun) emit(op, obs string) {
@@ -723,6 +724,10 @@ func (r *vpRun) emit(op, obs string) {
 	fmt.Fprintln(r.obs, obs)
 	r.cur = append(r.cur, op)
 	r.nline++
+	if r.flushEach {
+		r.ops.Flush()
+		r.obs.Flush()
+	}
 	// drain monitor failures raised while executing this op
 	r.w.failMu.Lock()
 	fails := r.w.fails
@@ -785,6 +790,18 @@ func (r *vpRun) register(w *vpWorld) {
 			}
 		}
 		r.stats["reg_form:"+reg.form]++
+	}
+	// constructors number their products after the registered values that made it into the collection
+	w.nextInst = 0
+	for _, reg := range w.regs {
+		if reg.form != "inst" {
+			continue
+		}
+		if !reg.added {
+			delete(w.byInst, reg.inst.Inst)
+		} else if reg.inst.Inst > w.nextInst {
+			w.nextInst = reg.inst.Inst
+		}
 	}
 	index := map[*Descriptor]int{}
 	for i, d := range w.coll.allDescriptors {
@@ -874,9 +891,13 @@ var vpHangTimeout = 20 * time.Second
 func (r *vpRun) build(w *vpWorld) bool {
 	var err error
 	var prov Provider
-	guard(w, "Build", func() { prov, err = w.coll.Build() })
+	panicked := guard(w, "Build", func() { prov, err = w.coll.Build() })
 	if w.hung {
 		r.emit("p build", "hang")
+		return false
+	}
+	if panicked { // reported by guard (C15); there is no provider to go on with
+		r.emit("p build", "panic"+w.flushEvents())
 		return false
 	}
 	// the creation order: Kahn's output as captured inside the first constructor call; if no
@@ -1121,10 +1142,14 @@ func (r *vpRun) createScope(w *vpWorld, from int, ctx int) {
 	t, name := w.target(from)
 	var sc Scope
 	var err error
-	guard(w, "CreateScope", func() { sc, err = t.CreateScope(c) })
+	panicked := guard(w, "CreateScope", func() { sc, err = t.CreateScope(c) })
 	op := fmt.Sprintf("p scope %s %d", name, ctx)
 	if w.hung {
 		r.emit(op, "hang")
+		return
+	}
+	if panicked { // reported by guard (C15); no scope was handed out
+		r.emit(op, "panic"+w.flushEvents())
 		return
 	}
 	w.monitorInjected("CreateScope", err)
@@ -1256,9 +1281,14 @@ func (r *vpRun) get(w *vpWorld, s int, t reflect.Type, name string) {
 		scN = 0
 	}
 	if b, ok := v.(vpObj); ok {
-		if reg, _ := w.providerOf(t, name); reg != nil {
+		if reg, outIdx := w.providerOf(t, name); reg != nil {
+			if reg.outs[outIdx].alias {
+				outIdx = 0
+			}
 			if b.base().Ctor != reg.idx+1 {
 				w.fail("C04", "Get(%v,%q) returned an instance of constructor %d, registered is constructor %d", t, name, b.base().Ctor, reg.idx+1)
+			} else if b.base().Out != outIdx && !reg.isInst() {
+				w.fail("C04", "Get(%v,%q) returned the value constructor %d placed in output %d, the output registered under that identity is %d", t, name, reg.idx+1, b.base().Out, outIdx)
 			}
 			w.monitorHandOut(fmt.Sprintf("Get(%v,%q) in s%d", t, name, scN), reg, b.base(), scN)
 		} else {
@@ -1635,6 +1665,24 @@ func (w *vpWorld) generate(o vpGenOpts) {
 				continue
 			}
 			reg.outs = []vpOut{out}
+			if form == "inst" && out.group == "" && rng.Intn(2) == 0 {
+				// a value registered under one or two interface types (As): one service, several identities
+				for _, it := range rng.Perm(len(vpIfaces))[:1+rng.Intn(2)] {
+					if out.name == "" && usedIface[vpIfaces[it]] {
+						continue
+					}
+					if out.name == "" {
+						usedIface[vpIfaces[it]] = true
+					}
+					reg.outs = append(reg.outs, vpOut{typ: vpIfaces[it], slot: out.slot, name: out.name, alias: true})
+				}
+				if len(reg.outs) > 1 {
+					reg.outs[0].hidden = true
+					if reg.outs[0].name == "" {
+						usedPlain[reg.outs[0].typ] = false
+					}
+				}
+			}
 		case "alias":
 			out, ok := newOut()
 			if !ok || out.group != "" {
@@ -1827,7 +1875,9 @@ func (w *vpWorld) generate(o vpGenOpts) {
 		case "inst":
 			obj := reflect.New(slotType(reg.outs[0].slot).Elem())
 			b := obj.Interface().(vpObj).base()
-			*b = vpBase{Ctor: reg.idx + 1, Inst: 900 + reg.idx, Life: reg.life, ScopeN: 0, w: w}
+			// registered values exist before Build: they carry the smallest instance ids
+			w.nextInst++
+			*b = vpBase{Ctor: reg.idx + 1, Inst: w.nextInst, Life: reg.life, ScopeN: 0, w: w}
 			w.byInst[b.Inst] = b
 			reg.inst = b
 			reg.fn = obj.Interface()
@@ -2136,7 +2186,16 @@ func TestVerifCore(t *testing.T) {
 	r := &vpRun{ops: wo, obs: wb, mon: wm, stats: map[string]int{}}
 	start := time.Now()
 	n := vpEnvInt("VERIF_CORE_N", 300)
+	only := vpEnvInt("VERIF_CORE_ONLY", -1) // re-run one iteration alone (the check does this after a crash)
+	r.flushEach = only >= 0
 	for it := 0; it < n; it++ {
+		if only >= 0 && it != only {
+			continue
+		}
+		// which iteration is running: read by the check when the process dies (stack overflow, deadlock, ...)
+		wo.Flush()
+		wb.Flush()
+		os.WriteFile(filepath.Join(out, "cur.txt"), []byte(strconv.Itoa(it)), 0o644)
 		rng := rand.New(rand.NewSource(seed*1000003 + int64(it)))
 		o := vpGenOpts{n: 2 + rng.Intn(7), forms: it%2 == 1, faults: it%3 == 2, defects: it%5 == 4}
 		if it%50 == 7 {
